@@ -152,7 +152,9 @@ SPECS = {
                          "stub": RENDER_REAL["stub"] + ["thread scheduler (baton: one runnable thread at a time, seeded switch points "
                                                         "at line events in library files)"]},
         "assumptions": ["interleavings are explored at line granularity in the library's own files only",
-                        "solo results come from a sibling process forked from the same pristine image"],
+                        "solo results = the same tasks run one after the other in a sibling process forked from the same pristine image",
+                        "no reference model is involved: the oracle is differential (scheduled = serial), which is what lets the "
+                        "'extends' stratum use Django template inheritance, a feature outside the workload language of the model"],
     },
     "C19": {
         "level": "exploration",
